@@ -178,6 +178,7 @@ func (r *Run) Explore(s Spec) Result {
 			break
 		}
 		var next []node
+		var mergeChecks [][2][]int // (representative, merged history) pairs picked for the state-key self-test
 		for i := range frontier {
 			for _, sc := range results[i] {
 				res.Transitions++
@@ -198,31 +199,7 @@ func (r *Run) Explore(s Spec) Result {
 					mergeCount++
 					if s.MergeCheckEvery > 0 && mergeCount%s.MergeCheckEvery == 0 && depth < s.Depth {
 						res.MergeChecks++
-						for op := 0; op < s.NumOps; op++ {
-							if s.Enabled != nil && (!s.Enabled(rep, op) || !s.Enabled(sc.hist, op)) {
-								continue
-							}
-							a := s.Exec(append(append([]int{}, rep...), op))
-							b := s.Exec(append(append([]int{}, sc.hist...), op))
-							if a.Err != "" || b.Err != "" {
-								// one of the two representatives violates the oracle on this op: that is a finding about the
-								// code (possibly hidden state the key cannot see), not a harness problem
-								if a.Err != "" {
-									h := append(append([]int{}, rep...), op)
-									r.Violation(a.Err, a.What, map[string]interface{}{"search": s.Name, "ops": names(h), "op_ids": h})
-								}
-								if b.Err != "" {
-									h := append(append([]int{}, sc.hist...), op)
-									r.Violation(b.Err, b.What, map[string]interface{}{"search": s.Name, "ops": names(h), "op_ids": h})
-								}
-								continue
-							}
-							if a.Key != b.Key {
-								res.MergeMismatch++
-								Fatalf("%s: state key too coarse: histories %v and %v share key but diverge on op %s (%q/%q vs %q/%q)",
-									s.Name, names(rep), names(sc.hist), s.OpName(op), a.Key, a.Err, b.Key, b.Err)
-							}
-						}
+						mergeChecks = append(mergeChecks, [2][]int{rep, sc.hist})
 					}
 					continue
 				}
@@ -240,6 +217,51 @@ func (r *Run) Explore(s Spec) Result {
 				}
 				if res.States%997 == 1 {
 					r.Sample(map[string]interface{}{"search": s.Name, "ops": names(sc.hist)})
+				}
+			}
+		}
+		// state-key self-test: two histories that were merged must have the same successors under every op. The
+		// re-expansions run in parallel; their results are judged in a fixed order.
+		if len(mergeChecks) > 0 {
+			type pairRes struct{ a, b Outcome }
+			outs := make([][]*pairRes, len(mergeChecks))
+			for i := range outs {
+				outs[i] = make([]*pairRes, s.NumOps)
+			}
+			ParallelFor(len(mergeChecks)*s.NumOps, func(k int) {
+				i, op := k/s.NumOps, k%s.NumOps
+				rep, hist := mergeChecks[i][0], mergeChecks[i][1]
+				if s.Enabled != nil && (!s.Enabled(rep, op) || !s.Enabled(hist, op)) {
+					return
+				}
+				outs[i][op] = &pairRes{s.Exec(append(append([]int{}, rep...), op)), s.Exec(append(append([]int{}, hist...), op))}
+			})
+			for i := range mergeChecks {
+				rep, hist := mergeChecks[i][0], mergeChecks[i][1]
+				for op := 0; op < s.NumOps; op++ {
+					pr := outs[i][op]
+					if pr == nil {
+						continue
+					}
+					a, b := pr.a, pr.b
+					if a.Err != "" || b.Err != "" {
+						// one of the two representatives violates the oracle on this op: that is a finding about the
+						// code (possibly hidden state the key cannot see), not a harness problem
+						if a.Err != "" {
+							h := append(append([]int{}, rep...), op)
+							r.Violation(a.Err, a.What, map[string]interface{}{"search": s.Name, "ops": names(h), "op_ids": h})
+						}
+						if b.Err != "" {
+							h := append(append([]int{}, hist...), op)
+							r.Violation(b.Err, b.What, map[string]interface{}{"search": s.Name, "ops": names(h), "op_ids": h})
+						}
+						continue
+					}
+					if a.Key != b.Key {
+						res.MergeMismatch++
+						Fatalf("%s: state key too coarse: histories %v and %v share key but diverge on op %s (%q/%q vs %q/%q)",
+							s.Name, names(rep), names(hist), s.OpName(op), a.Key, a.Err, b.Key, b.Err)
+					}
 				}
 			}
 		}
